@@ -8,6 +8,7 @@ RESTATE = "seq"    # worker adds a signature restating the one in force to every
 CANONICAL_ABS = True   # cut-off pairs notes over the canonically sorted list (oracle.abs_order)
 SPLIT_WAITS = "seq"   # worker: every fifth case is built from relative messages with rests split into adjacent waits
 DEGEN = "seq"    # worker: every 37th case becomes a degenerate shape (gen.degenerate)
+REJECTED = "prefix"    # worker: every thirteenth case starts with a call the library rejects (common.apply_prefix "rejected")
 SCALE = True   # worker: every fortieth case is blown up by scale_case below
 PROP = "C18"
 MONITORS = ["c18"]
